@@ -27,7 +27,18 @@ RULE = (
     "Every clause name carries the operator, the operand kinds and the input class (stored-entry counts 0/1/2+, "
     "stored orders same/different, zero patterns same/different, ...), so each is judged separately.  Non-trivial: "
     "both operands have a zero and a nonzero and their zero patterns differ (scalar cells: the sparse operand has "
-    "a zero and a nonzero)."
+    "a zero and a nonzero).  "
+    "Round 2: (dtypes) an operand whose values are all integers is held in an integer dtype two times in three "
+    "(int64 / int32 / int8, uint8 when positive), independently for the two operands, in the enumerated cells (by a "
+    "second PRNG stream, values / orders unchanged) and in the sampled cells (whose two operands now draw their kind "
+    "of values - integer, {-2..2.5}, half-integer, general, 1e-6- and 1e+6-scaled floats - independently half of "
+    "the time), so int/float, float/int, int/int, unsigned/* pairs meet under every operator and operand kind; the "
+    "oracle is the float64 (mathematical) result and no result dtype is demanded; tag dt-XY in the clause names.  "
+    "(states) cells */state: sparse operands holding 1..3 explicitly stored zeros and / or a numpy-integer shape, "
+    "dense operands grown by assignment, on small and large shapes; clause values@explicit-zero separates the positions "
+    "of stored zeros from the rest.  (calls) after every operator the operands must denote what they did before "
+    "(<op>:operand-unchanged).  (boundaries) at a common position the second operand repeats, negates (a+b cancels "
+    "exactly) or ignores the first one's value."
 )
 ASSUMPTIONS = [
     "oracle: NumPy ufunc on the dense expansion of the operands; booleans compared as 0/1; -0.0 == 0.0; NaN == NaN",
@@ -35,6 +46,10 @@ ASSUMPTIONS = [
     "a sparse result may store explicit zeros (e.g. S*0); this is not asserted here (C06)",
     "scalars are Python int / float (and numpy.float64, a float subclass); numpy integer scalars are not claimed",
     "enumeration values/orders come from random.Random(crc32(enumeration index)) — deterministic, not Hypothesis-driven",
+    "integer dtypes are assigned only to operands whose values are integers of magnitude <= 10 (no int8 overflow in "
+    "sums / products); with an unsigned operand an operator whose true result has a negative entry is outside the "
+    "domain (NumPy wraps around or refuses) and is not run (label not-run:negative-result-with-unsigned-operand)",
+    "float32 operands are not generated: the exact-equality oracle is stated for float64 arithmetic",
 ]
 
 
@@ -57,12 +72,15 @@ def _body_spsp(ctx, case):
     ctx.label(*tags, f"cells{min(A.size, 9)}")
     ctx.nt = H.nontrivial_pair(case)
     info = _info(case)
+    uns = H.has_unsigned(case)
+    ctx.label("dtypes-" + H.part_dtype(case["a"]) + "/" + H.part_dtype(case["b"]))
     for name in H.BINARY:
         # fresh operands for every operator: a mutated operand must not leak into the next call
         with ctx.sut("construct"):
             S, S2 = H.sp_of(shape, case["a"]), H.sp_of(shape, case["b"])
         H.run_op(ctx, f"{name}/sp-sp", ts, lambda: H.SUT[name](S, S2), lambda: H.NP[name](A, B), info,
-                 split=H.value_split(f"{name}/sp-sp", A, B))
+                 split=H.value_split(f"{name}/sp-sp", A, B, case), unsigned=uns)
+        H.check_unchanged(ctx, f"{name}/sp-sp", (S, A), (S2, B))
 
 
 def _body_sptn(ctx, case):
@@ -73,11 +91,14 @@ def _body_sptn(ctx, case):
     ctx.label(*tags, f"cells{min(A.size, 9)}")
     ctx.nt = H.nontrivial_pair(case)
     info = _info(case)
+    uns = H.has_unsigned(case)
+    ctx.label("dtypes-" + H.part_dtype(case["a"]) + "/" + H.part_dtype(case["b"]))
     for name in H.BINARY:
         with ctx.sut("construct"):
             S, T = H.sp_of(shape, case["a"]), H.tn_of(shape, case["b"])
         H.run_op(ctx, f"{name}/sp-tn", ts, lambda: H.SUT[name](S, T), lambda: H.NP[name](A, B), info,
-                 split=H.value_split(f"{name}/sp-tn", A, B))
+                 split=H.value_split(f"{name}/sp-tn", A, B, case), unsigned=uns)
+        H.check_unchanged(ctx, f"{name}/sp-tn", (S, A), (T, B))
 
 
 def _body_tnsp(ctx, case):
@@ -88,10 +109,14 @@ def _body_tnsp(ctx, case):
     ctx.label(*tags, f"cells{min(A.size, 9)}")
     ctx.nt = H.nontrivial_pair(case)
     info = _info(case)
+    uns = H.has_unsigned(case)
+    ctx.label("dtypes-" + H.part_dtype(case["a"]) + "/" + H.part_dtype(case["b"]))
     for name in H.BINARY:
         with ctx.sut("construct"):
             S, T = H.sp_of(shape, case["a"]), H.tn_of(shape, case["b"])
-        H.run_op(ctx, f"{name}/tn-sp", ts, lambda: H.SUT[name](T, S), lambda: H.NP[name](B, A), info)
+        H.run_op(ctx, f"{name}/tn-sp", ts, lambda: H.SUT[name](T, S), lambda: H.NP[name](B, A), info, unsigned=uns,
+                 split=H.value_split(f"{name}/tn-sp", B, A, case))
+        H.check_unchanged(ctx, f"{name}/tn-sp", (S, A), (T, B))
 
 
 def _body_scalar(ctx, case):
@@ -104,20 +129,28 @@ def _body_scalar(ctx, case):
     na = len(case["a"]["subs"])
     ctx.nt = 0 < na < A.size
     info = _info(case)
+    uns = H.has_unsigned(case)
+    ctx.label("dtypes-" + H.part_dtype(case["a"]) + "/scalar")
+    ezs = H.value_split("", A, A, case)
     for name in H.BINARY:
         with ctx.sut("construct"):
             S = H.sp_of(shape, case["a"])
-        H.run_op(ctx, f"{name}/sp-sc", ts, lambda: H.SUT[name](S, c), lambda: H.NP[name](A, c), info)
+        H.run_op(ctx, f"{name}/sp-sc", ts, lambda: H.SUT[name](S, c), lambda: H.NP[name](A, float(c)), info,
+                 unsigned=uns, split=ezs)
+        H.check_unchanged(ctx, f"{name}/sp-sc", (S, A))
     for name in H.REFLECTED_SCALAR:
         with ctx.sut("construct"):
             S = H.sp_of(shape, case["a"])
-        H.run_op(ctx, f"{name}/sc-sp", ts, lambda: H.SUT[name](c, S), lambda: H.NP[name](c, A), info)
-    uts = tags[0]
+        H.run_op(ctx, f"{name}/sc-sp", ts, lambda: H.SUT[name](c, S), lambda: H.NP[name](float(c), A), info,
+                 unsigned=uns, split=ezs)
+        H.check_unchanged(ctx, f"{name}/sc-sp", (S, A))
+    uts = ",".join([tags[0]] + H.extra_tags(case))
     with ctx.sut("construct"):
         S = H.sp_of(shape, case["a"])
-    H.run_op(ctx, "not/sp", uts, lambda: S.logical_not(), lambda: np.logical_not(A), info)
-    H.run_op(ctx, "neg/sp", uts, lambda: -S, lambda: -A, info)
-    H.run_op(ctx, "pos/sp", uts, lambda: +S, lambda: A, info)
+    H.run_op(ctx, "not/sp", uts, lambda: S.logical_not(), lambda: np.logical_not(A), info, split=ezs)
+    H.run_op(ctx, "neg/sp", uts, lambda: -S, lambda: -A, info, unsigned=uns, split=ezs)
+    H.run_op(ctx, "pos/sp", uts, lambda: +S, lambda: A, info, split=ezs)
+    H.check_unchanged(ctx, "unary/sp", (S, A))
 
 
 # --------------------------------------------------------------------------
@@ -155,14 +188,29 @@ def scalar_enumerated(ctx, case):
 
 _HALF_VALUES = st.sampled_from([v / 2.0 for v in range(-6, 7) if v != 0])
 _SET_VALUES = st.sampled_from(list(H.VALUE_SET))
+_INT_VALUES = st.sampled_from([float(v) for v in range(-6, 7) if v != 0])
+_VKINDS = ["int", "int", "set", "half", "float", "tiny", "huge"]
 
 
 def _vstrat(vkind):
+    if vkind == "int":
+        return _INT_VALUES
     if vkind == "set":
         return _SET_VALUES
     if vkind == "half":
         return _HALF_VALUES
+    if vkind in ("tiny", "huge"):  # every output entry is one IEEE operation: exact at any magnitude
+        return gen.NZ_GEN_VALUES.map((lambda v: v * 1e-6) if vkind == "tiny" else (lambda v: v * 1e6))
     return gen.NZ_GEN_VALUES
+
+
+def _draw_dtype(draw, part):
+    """an operand whose values are all integers is held in an integer dtype two times in three (int64 / int32 /
+    int8, or uint8 when all values are positive); every other operand is float64"""
+    vals = part["vals"]
+    if vals and H.integral(vals) and draw(st.integers(0, 2)):
+        part["dtype"] = draw(st.sampled_from(["int64", "int64", "int32", "uint8" if min(vals) > 0 else "int8"]))
+    return part
 
 
 @st.composite
@@ -216,21 +264,25 @@ _PATTERNS_B = ["none", "one", "some", "some", "some", "allbut1", "all", "same-as
 
 
 @st.composite
-def _operand_a(draw, tier):
-    shape = draw(_big_shape(tier))
+def _operand_a(draw, tier, any_shape=False):
+    # any_shape: also the small shapes (the enumerated cells cover those for freshly constructed operands only)
+    shape = draw(st.one_of(_big_shape(tier), gen.shapes(tier, max_cells=8)) if any_shape else _big_shape(tier))
     n = ref.prod(shape)
-    vkind = draw(st.sampled_from(["set", "half", "float"]))
+    vkind = draw(st.sampled_from(_VKINDS))
     vs = _vstrat(vkind)
     ma = draw(_mask(n, draw(st.sampled_from(_PATTERNS_A))))
     k = sum(ma)  # draw exactly the values that are used (unused draws only produce duplicate cases)
     vals = iter(draw(st.lists(vs, min_size=k, max_size=k)))
     va = [next(vals) if m else 0.0 for m in ma]
-    return shape, n, vs, va
+    # the other operand / the scalar: the same kind of values half of the time, otherwise any kind (so that
+    # integer-valued and fractional operands meet in both positions)
+    vs_other = vs if draw(st.booleans()) else _vstrat(draw(st.sampled_from(_VKINDS)))
+    return shape, n, vs_other, va
 
 
 @st.composite
-def _pair_sampled(draw, tier, permute_b=True):
-    shape, n, vs, va = draw(_operand_a(tier))
+def _pair_sampled(draw, tier, permute_b=True, any_shape=False):
+    shape, n, vs, va = draw(_operand_a(tier, any_shape))
     subsF = ref.all_subs_F(shape)
     pb = draw(st.sampled_from(_PATTERNS_B))
     if pb in ("same-as-a", "perturbed-a"):
@@ -241,11 +293,14 @@ def _pair_sampled(draw, tier, permute_b=True):
     else:
         mb = draw(_mask(n, pb))
     ncommon = sum(1 for k in range(n) if mb[k] and va[k] != 0.0)
-    same = iter(draw(st.lists(st.integers(0, 2), min_size=ncommon, max_size=ncommon)))
+    # at a common position the second operand repeats the first one's value (a-b cancels exactly), its negation (a+b
+    # cancels exactly) or holds an unrelated value
+    same = iter(draw(st.lists(st.integers(0, 3), min_size=ncommon, max_size=ncommon)))
     vb = [0.0] * n
     for k in range(n):
         if mb[k]:
-            vb[k] = va[k] if (va[k] != 0.0 and next(same) == 0) else None
+            rel = next(same) if va[k] != 0.0 else 3
+            vb[k] = va[k] if rel == 0 else (-va[k] if rel == 1 else None)
     nfresh = sum(1 for v in vb if v is None)
     fresh = iter(draw(st.lists(vs, min_size=nfresh, max_size=nfresh)))
     vb = [next(fresh) if v is None else v for v in vb]
@@ -253,12 +308,12 @@ def _pair_sampled(draw, tier, permute_b=True):
     eb = [(subsF[k], vb[k]) for k in range(n) if vb[k] != 0.0]
     a = _store(draw, ea)
     b = _store(draw, eb) if permute_b else dict(subs=[list(e[0]) for e in eb], vals=[e[1] for e in eb])
-    return dict(shape=list(shape), a=a, b=b)
+    return dict(shape=list(shape), a=_draw_dtype(draw, a), b=_draw_dtype(draw, b))
 
 
 @st.composite
-def _scalar_sampled(draw, tier):
-    shape, n, vs, va = draw(_operand_a(tier))
+def _scalar_sampled(draw, tier, any_shape=False):
+    shape, n, vs, va = draw(_operand_a(tier, any_shape))
     subsF = ref.all_subs_F(shape)
     ea = [(subsF[k], va[k]) for k in range(n) if va[k] != 0.0]
     a = _store(draw, ea)
@@ -270,8 +325,8 @@ def _scalar_sampled(draw, tier):
         c = -c if how == "neg-stored" else c
     else:
         c = draw(st.one_of(vs, st.sampled_from([-3.0, -1.0, 1.0, 3.0, 0.5, -0.5])))
-    ckind = draw(st.sampled_from(["float", "npfloat"] + (["int"] if float(c).is_integer() else [])))
-    return dict(shape=list(shape), a=a, c=float(c), ckind=ckind)
+    ckind = draw(st.sampled_from(["float", "npfloat"] + (["int", "int"] if float(c).is_integer() else [])))
+    return dict(shape=list(shape), a=_draw_dtype(draw, a), c=float(c), ckind=ckind)
 
 
 @cell("C03/sp-sp/sampled", strategy=lambda tier: _pair_sampled(tier, True), quick=500, thorough=12000, shards=(4, 16))
@@ -291,6 +346,83 @@ def tnsp_sampled(ctx, case):
 
 @cell("C03/scalar/sampled", strategy=_scalar_sampled, quick=400, thorough=8000, shards=(2, 8))
 def scalar_sampled(ctx, case):
+    _body_scalar(ctx, case)
+
+
+# --------------------------------------------------------------------------
+# operands in derived states: the same tensors, reached through public paths that leave the object in a state a
+# fresh, validated construction does not produce.  Sparse operand: explicitly stored zeros (the documented
+# unvalidated constructor; S*0 and scale by 0 leave the same state), numpy integers in `shape`.  Dense operand: grown
+# by assignment (C-ordered buffer, numpy integers in `shape`).  Every operator must treat them as the same tensor.
+# --------------------------------------------------------------------------
+
+
+def _derive_sparse(draw, shape, part, force):
+    """add explicitly stored zeros at 1..3 of the operand's zero cells and / or a numpy-integer shape"""
+    have = {tuple(s) for s in part["subs"]}
+    zero_cells = [list(s) for s in ref.all_subs_F(shape) if tuple(s) not in have]
+    if zero_cells and (force or draw(st.booleans())):
+        k = draw(st.integers(1, min(3, len(zero_cells))))
+        idx = draw(st.lists(st.integers(0, len(zero_cells) - 1), min_size=k, max_size=k, unique=True))
+        part["zsubs"] = [zero_cells[i] for i in idx]
+        part["zpos"] = [draw(st.integers(0, len(part["subs"]) + j)) for j in range(k)]
+    if draw(st.booleans()):
+        part["shapekind"] = "npint"
+    return part
+
+
+@st.composite
+def _pair_state(draw, tier, b_sparse):
+    c = draw(_pair_sampled(tier, permute_b=b_sparse, any_shape=True))
+    which = draw(st.sampled_from(["a", "b", "both"])) if b_sparse else "a"
+    _derive_sparse(draw, c["shape"], c["a"], force=which in ("a", "both"))
+    if b_sparse:
+        _derive_sparse(draw, c["shape"], c["b"], force=which in ("b", "both"))
+    elif H.part_dtype(c["b"]) == "float64" and draw(st.booleans()):
+        c["b"]["prov"] = "grown"
+    return c
+
+
+@st.composite
+def _scalar_state(draw, tier):
+    c = draw(_scalar_sampled(tier, any_shape=True))
+    _derive_sparse(draw, c["shape"], c["a"], force=True)
+    return c
+
+
+def _state_labels(ctx, case):
+    for k in ("a", "b"):
+        p = case.get(k)
+        if p is None:
+            continue
+        ctx.label(f"{k}-explicit-zeros" if p.get("zsubs") else f"{k}-no-explicit-zero")
+        if p.get("shapekind") == "npint":
+            ctx.label(f"{k}-numpy-int-shape")
+        if p.get("prov") == "grown":
+            ctx.label(f"{k}-dense-grown")
+
+
+@cell("C03/sp-sp/state", strategy=lambda tier: _pair_state(tier, True), quick=300, thorough=8000, shards=(2, 8))
+def spsp_state(ctx, case):
+    _state_labels(ctx, case)
+    _body_spsp(ctx, case)
+
+
+@cell("C03/sp-tn/state", strategy=lambda tier: _pair_state(tier, False), quick=250, thorough=6000, shards=(2, 8))
+def sptn_state(ctx, case):
+    _state_labels(ctx, case)
+    _body_sptn(ctx, case)
+
+
+@cell("C03/tn-sp/state", strategy=lambda tier: _pair_state(tier, False), quick=200, thorough=4000, shards=(2, 8))
+def tnsp_state(ctx, case):
+    _state_labels(ctx, case)
+    _body_tnsp(ctx, case)
+
+
+@cell("C03/scalar/state", strategy=_scalar_state, quick=250, thorough=6000, shards=(2, 8))
+def scalar_state(ctx, case):
+    _state_labels(ctx, case)
     _body_scalar(ctx, case)
 
 
@@ -336,4 +468,8 @@ PREDICATES = {
     "eq_scalar_count_mismatch": lambda c: float(c["c"]) != 0 and H.scalar_matches(c) != "all",
     "ne_scalar_count_mismatch": lambda c: float(c["c"]) != 0 and _na(c) > 0 and H.scalar_matches(c) != "all",
     "sparse_empty_scalar_zero": lambda c: _na(c) == 0 and float(c["c"]) == 0,
+    # value dtypes
+    "right_unsigned": lambda c: "b" in c and H.dtype_kind(c["b"]) == "u",
+    # derived states
+    "explicit_zero_operand": lambda c: H.explicit_zero_mask(c) is not None,
 }
